@@ -1,4 +1,4 @@
-import MetadorModel.Proofs.ContainerDelete
+import MetadorModel.Proofs.ContainerMove
 import MetadorModel.Proofs.ContainerReload
 /-!
 # C06 — TOC and attached metadata stay in one-to-one sync
@@ -248,35 +248,38 @@ reads (`CachesEq`: link table by uuid, set of embedded schemas, `parent_path`, d
 is false: dict orders differ, `_used` keeps empty entries of packages that are no longer needed). -/
 theorem cache_coherent (he : WFEnv e) (hi : Inv e s) : CachesEq (reload s.raw) s.c := reload_cachesEq he hi
 
-/-- the operations covered by `sync_step_partial` -/
-def NoCopyMove : Op → Prop
-  | .copy _ _ _ => False
-  | .move _ _ => False
-  | _ => True
+/-- `group.copy(source, dest, without_meta=…)`, success or failure: dataset and group branch, the
+metadata-free dataset that raises after copying, `find_missing` / `repair_missing` with fresh uuids,
+and `_destroy_meta(_unlink=False)` of the copied metadata -/
+theorem sync_copy (he : WFEnv e) (hi : Inv e s) (src dst : Path) (withoutMeta : Bool) :
+    Inv e (opCopy e src dst withoutMeta s).2 := opCopy_inv he hi src dst withoutMeta
 
-/-- full statement: every operation, successful or failed, keeps the invariant -/
+/-- `group.move(source, dest)`, success or failure (metadata directory of a dataset moves along,
+links are re-targeted with `update=True`). `dest` must not end in an empty name: HDF5 names are never
+empty and the driver's path parser refuses empty segments, but the structured names of the model
+contain `Key.user ""`, for which the statement is false (`sync_step_needs_names`). -/
+theorem sync_move (hi : Inv e s) (src dst : Path) (hname : dst.getLast? ≠ some (.user "")) :
+    Inv e (opMove e src dst s).2 := opMove_inv hi src dst hname
+
+/-- **`sync_step`**: every container operation — create group/dataset, any sequence of metadata
+operations on a node, delete, copy (with and without metadata), move, reopen, patch boundary —
+keeps the invariant, whether it succeeds or fails (the state `(step e op s).2` is what the operation
+leaves behind in either case). -/
+theorem sync_step (he : WFEnv e) (hi : Inv e s) (op : Op) (hop : OpOK op) : Inv e (step e op s).2 :=
+  step_inv he hi op hop
+
+/-- **`sync_run`**: all histories (of operations satisfying the side condition `OpOK`) -/
+theorem sync_run (he : WFEnv e) (ops : List Op) (s : St) (hi : Inv e s) (h : ∀ op ∈ ops, OpOK op) :
+    Inv e (run e s ops) := run_inv he ops s hi h
+
+/-- every state reachable from a fresh container satisfies the property statement -/
+theorem sync_reachable (he : WFEnv e) (ops : List Op) (h : ∀ op ∈ ops, OpOK op) :
+    Sync e (run e initSt ops) :=
+  sync_of_inv (sync_run he ops initSt (sync_init e) h)
+
+/-- the statement without the side condition on names -/
 def sync_step_statement : Prop :=
   ∀ (e : Env) (s : St) (op : Op), WFEnv e → Inv e s → Inv e (step e op s).2
-
-/-- every operation other than `copy` / `move` keeps the invariant (success and failure) -/
-theorem sync_step_partial (he : WFEnv e) (hi : Inv e s) (op : Op) (hop : NoCopyMove op) :
-    Inv e (step e op s).2 := by
-  cases op with
-  | createGroup p => exact opCreateGroup_inv hi p
-  | createDataset p tok => exact opCreateDataset_inv hi p tok
-  | onMeta p ops => exact opMeta_inv he hi p ops
-  | delete p => exact opDelete_inv he hi p
-  | copy src dst wm => exact absurd hop id
-  | move src dst => exact absurd hop id
-  | reopen => exact opReopen_inv he hi
-  | patch => exact hi
-
-/-- all histories without `copy` / `move` -/
-theorem sync_run_partial (he : WFEnv e) : ∀ (ops : List Op) (s : St), Inv e s → (∀ op ∈ ops, NoCopyMove op) →
-    Inv e (run e s ops)
-  | [], _, hi, _ => hi
-  | op :: ops, s, hi, h =>
-    sync_run_partial he ops _ (sync_step_partial he hi op (h op (by simp))) (fun o ho => h o (List.mem_cons_of_mem _ ho))
 
 /-! ## Non-vacuity: a three-level schema family -/
 
@@ -307,10 +310,54 @@ theorem hist1_obj : ObjAt (run env3 initSt hist1).raw [.user "g", .metaDir "d", 
   ⟨[.user "g"], "d", by decide, rfl, by decide⟩
 
 /-- … and it satisfies the invariant, hence every clause of the property -/
-example : Sync env3 (run env3 initSt hist1) :=
-  sync_of_inv (sync_run_partial env3_wf hist1 initSt (sync_init env3) (by simp [hist1, NoCopyMove]))
+example : Sync env3 (run env3 initSt hist1) := sync_reachable env3_wf hist1 (by decide)
 
 example : CachesEq (reload (run env3 initSt hist1).raw) (run env3 initSt hist1).c :=
-  cache_coherent env3_wf (sync_run_partial env3_wf hist1 initSt (sync_init env3) (by simp [hist1, NoCopyMove]))
+  cache_coherent env3_wf (sync_run env3_wf hist1 initSt (sync_init env3) (by decide))
+
+/-- a longer history through every kind of operation (group and dataset metadata, refused second
+object, copy with and without metadata, move, delete, reopen) -/
+def hist2 : List Op :=
+  [.createDataset [.user "g", .user "d"] "x",
+   .onMeta [.user "g", .user "d"] [.set "vt.cc" none true "t1", .set "vt.cc" none true "t2", .set "ot.dd" none true "t3"],
+   .onMeta [.user "g"] [.set "vt.bb" none true "t4"],
+   .copy [.user "g"] [.user "h"] false,
+   .copy [.user "g", .user "d"] [.user "e"] true,
+   .move [.user "h"] [.user "k", .user "h"],
+   .delete [.user "g"],
+   .reopen]
+
+example : Sync env3 (run env3 initSt hist2) := sync_reachable env3_wf hist2 (by decide)
+
+/-- after `hist2` the copies carry fresh uuids at their new place (`/k/h/d` holds the copy of the
+`vt.cc` object with uuid 5), the originals are gone -/
+example : ObjAt (run env3 initSt hist2).raw [.user "k", .user "h", .metaDir "d", .obj cc 5] cc 5 ∧
+    ¬ UsedIn (run env3 initSt hist2).raw aa ∧ get? (run env3 initSt hist2).raw [.user "g"] = none :=
+  ⟨⟨[.user "k", .user "h"], "d", by decide, rfl, by decide +kernel⟩,
+   fun h => by
+     have := ((schema_records_exact (sync_run env3_wf hist2 initSt (sync_init env3) (by decide)) aa).1 h).1
+     revert this; decide +kernel,
+   by decide +kernel⟩
+
+/-- The side condition of `sync_move` is needed *in the model*: with the (impossible) empty node
+name as destination the metadata directory of the moved dataset stays behind. -/
+def histBad : List Op :=
+  [.createGroup [.user "g"], .onMeta [.user "g"] [.set "vt.aa" none true "a"],
+   .createDataset [.user "d"] "x", .onMeta [.user "d"] [.set "vt.aa" none true "b"],
+   .move [.user "d"] [.user "g", .user ""]]
+
+theorem sync_step_needs_names : ¬ sync_step_statement := by
+  intro h
+  have hrun : ∀ (ops : List Op) (s : St), Inv env3 s → Inv env3 (run env3 s ops) := by
+    intro ops
+    induction ops with
+    | nil => intro s hi; exact hi
+    | cons op ops ih => intro s hi; exact ih _ (h env3 s op env3_wf hi)
+  have hi := hrun histBad initSt (sync_init env3)
+  have hdir : get? (run env3 initSt histBad).raw ([] ++ [.metaDir "d"]) ≠ none := by decide +kernel
+  rcases (hi.mok.host [] "d" rfl hdir).1 with h | ⟨v, hv⟩
+  · exact absurd h (by decide)
+  · have : get? (run env3 initSt histBad).raw ([] ++ [Key.user "d"]) = none := by decide +kernel
+    rw [this] at hv; cases hv
 
 end MetadorModel.C06
